@@ -418,6 +418,9 @@ def origins(body, op_or_local, path=(), max_steps=4000, transparent=TRANSPARENT_
                                 out.add(("const",) + const_value(op))
                             else:
                                 wl.append((op["pl"]["l"], _strip_path(op["pl"]["p"]) + tuple(sub)))
+                    elif rv.get("ak") == "adt" and sub and sub[0].startswith("dc:") and rv.get("variant") and sub[0][3:] != rv["variant"]:
+                        # `(x as V).f` read from a value that was built as another variant: nothing flows
+                        picked = True
                     elif rv.get("ak") == "adt" and sub:
                         # select the field named by the path
                         first = sub[0]
